@@ -99,9 +99,11 @@ def _distinct_lits(facts, x):
     """(holds, refuted) for 'x has no duplicates' stated as len(set(X)) ==/>= len(X) with X ~ x"""
     holds = refuted = False
     xs = _copies_of(facts, x)
-    for X in xs:
-        for Y in xs:
-            ls, ll = CallT("builtin:len", [CallT("builtin:set", [X])]), CallT("builtin:len", [Y])
+    pairs = [(CallT("builtin:len", [CallT("builtin:set", [X])]), CallT("builtin:len", [Y])) for X in xs for Y in xs]
+    # {e for e in x} is set(x)
+    pairs += [(CallT("builtin:len", [X]), CallT("builtin:len", [Y])) for X in xs if len(X) == 5 and X[0] == "comp" and X[1] == "set" for Y in xs if not (len(Y) == 5 and Y[0] == "comp" and Y[1] == "set")]
+    for ls, ll in pairs:
+        if True:
             for f in facts:
                 if f[0] == "eq" and {f[1], f[2]} == {ls, ll}:
                     holds = True
